@@ -61,8 +61,16 @@ Reading given to the Python (see ReaderRt.v for every operation):
   check_valid only `if c: return <bool>` (with elif / else), `for v in range(a, b):`
               / `for v in '<chars>':` over constants with such statements inside,
               and a final `return <bool>`; conditions built from len(x) == 0,
-              not x, 'c' in x, chr(v) in x, v in x, not / and / or.  chr(v) is
-              accepted for the variable of a constant range inside 0..0x10FFFF.
+              not x, 'c' in x, chr(v) in x, v in x, not / and / or, and
+              any(<condition> for v in <constant range / string / list>) /
+              all(...) (existsb / forallb: the condition has no side effect, so
+              Python's laziness is not observable).  chr(v) is accepted for the
+              variable of a constant range inside 0..0x10FFFF.
+              check_valid_constants() derives, by walking the same ast (PureEval,
+              nothing is executed), the code points this function rejects; the
+              constants plugin harness/consts/trainer_io.py falls back to it when
+              its own shape matcher does not know the way the tests are written.
+  names       a local called `_` is written u_ in the generated text.
   __init__    a sequence of `self.a = e` with e a parameter, a constant (int,
               bool, {}), self.b, or exactly
               codecs.open(self.filename, 'r', encoding=self.encoding,
@@ -117,6 +125,11 @@ py_startswith py_endswith py_int py_fromhex py_decode py_encode_check dict_mem f
 exn_is exn_reason codec_none codecs_open_r_surrogateescape out npw nerr rout""".split())
 
 
+def vname(n):
+    """the Gallina name of a Python local (`_` is not a usable binder in Gallina)"""
+    return "u_" if n == "_" else n
+
+
 def cstr(s):
     if not s:
         return "(@nil N)"
@@ -161,7 +174,9 @@ class Base:
             _comment(ast.unparse(node)).split("\n")[0][:100]))
 
     def check_name(self, node, name):
-        if name in RESERVED or re.match(r"^(tmp|r|it)\d+$", name) or name.startswith("py_") or name.startswith("o_") \
+        if name == "_":        # the throw-away name: written u_ in the generated text
+            return
+        if name == "u_" or name in RESERVED or re.match(r"^(tmp|r|it)\d+$", name) or name.startswith("py_") or name.startswith("o_") \
                 or name.startswith("set_") or name.startswith("_") or not name.isidentifier() or not name.isascii():
             self.fail(node, "the variable name %r collides with the generated code" % name)
 
@@ -270,22 +285,8 @@ class PureFn(Base):
             self.check_name(s, v)
             if v in self.vars or v == self.pw:
                 self.fail(s, "the loop variable %r is reused" % v)
-            it = s.iter
-            if isinstance(it, ast.Call) and isinstance(it.func, ast.Name) and it.func.id == "range" and not it.keywords \
-                    and 1 <= len(it.args) <= 2 and all(isinstance(a, ast.Constant) and type(a.value) is int for a in it.args):
-                lo, hi = (0, it.args[0].value) if len(it.args) == 1 else (it.args[0].value, it.args[1].value)
-                if not (0 <= lo and hi <= 0x110000 and hi - lo <= 4096):
-                    self.fail(s, "range outside 0..0x110000 or longer than 4096")
-                self.vars[v] = ("int", lo, hi)
-                seq = "(zrange %s %s)" % (cint(lo), cint(hi))
-            elif isinstance(it, ast.Constant) and isinstance(it.value, str):
-                self.vars[v] = ("char",)
-                seq = "[" + "; ".join(cstr(ch) for ch in it.value) + "]" if it.value else "(@nil str)"
-            elif isinstance(it, (ast.List, ast.Tuple)) and all(isinstance(e, ast.Constant) and isinstance(e.value, str) for e in it.elts):
-                self.vars[v] = ("char",)
-                seq = "[" + "; ".join(cstr(e.value) for e in it.elts) + "]" if it.elts else "(@nil str)"
-            else:
-                self.fail(s, "a loop over something else than a constant range / string / list of strings")
+            seq, kind = self.const_seq(s, s.iter, v)
+            self.vars[v] = kind
             out = self.line(ind, "pfor %s (fun %s =>" % (seq, v), s)
             out += _close(self.pblock(s.body, "loop", ind + 1), ") (")
             del self.vars[v]
@@ -319,7 +320,37 @@ class PureFn(Base):
             return "(py_chr %s)" % e.args[0].id
         self.fail(e, "unsupported string expression")
 
+    def const_seq(self, node, it, v):
+        """a constant iterable -> (Gallina list text, kind of its items)"""
+        if isinstance(it, ast.Call) and isinstance(it.func, ast.Name) and it.func.id == "range" and not it.keywords \
+                and 1 <= len(it.args) <= 2 and all(isinstance(a, ast.Constant) and type(a.value) is int for a in it.args):
+            lo, hi = (0, it.args[0].value) if len(it.args) == 1 else (it.args[0].value, it.args[1].value)
+            if not (0 <= lo and hi <= 0x110000 and hi - lo <= 4096):
+                self.fail(node, "range outside 0..0x110000 or longer than 4096")
+            return "(zrange %s %s)" % (cint(lo), cint(hi)), ("int", lo, hi)
+        if isinstance(it, ast.Constant) and isinstance(it.value, str):
+            return ("[" + "; ".join(cstr(ch) for ch in it.value) + "]" if it.value else "(@nil str)"), ("char",)
+        if isinstance(it, (ast.List, ast.Tuple, ast.Set)) and all(isinstance(e, ast.Constant) and isinstance(e.value, str) for e in it.elts):
+            return ("[" + "; ".join(cstr(e.value) for e in it.elts) + "]" if it.elts else "(@nil str)"), ("char",)
+        self.fail(node, "an iteration over something else than a constant range / string / list of strings")
+
     def pcond(self, e):
+        # any(<condition> for v in <constant iterable>) / all(...): the condition has no side effect
+        if isinstance(e, ast.Call) and isinstance(e.func, ast.Name) and e.func.id in ("any", "all") and len(e.args) == 1 \
+                and not e.keywords and isinstance(e.args[0], (ast.GeneratorExp, ast.ListComp)):
+            g = e.args[0]
+            if len(g.generators) != 1 or g.generators[0].ifs or g.generators[0].is_async \
+                    or not isinstance(g.generators[0].target, ast.Name):
+                self.fail(e, "unsupported generator expression")
+            v = g.generators[0].target.id
+            self.check_name(e, v)
+            if v in self.vars or v == self.pw:
+                self.fail(e, "the generator variable %r is reused" % v)
+            seq, kind = self.const_seq(e, g.generators[0].iter, v)
+            self.vars[v] = kind
+            body = self.pcond(g.elt)
+            del self.vars[v]
+            return "%s (fun %s => %s) %s" % ("existsb" if e.func.id == "any" else "forallb", v, body, seq)
         if isinstance(e, ast.UnaryOp) and isinstance(e.op, ast.Not):
             if isinstance(e.operand, ast.Name) and e.operand.id == self.pw:
                 return "negb (nonempty %s)" % self.pw
@@ -348,6 +379,117 @@ class PureFn(Base):
         if isinstance(e, ast.Call) and isinstance(e.func, ast.Name) and e.func.id == "len" and len(e.args) == 1 and not e.keywords:
             return "(zlen %s)" % _paren(self.pstr(e.args[0]))
         self.fail(e, "unsupported int expression")
+
+
+class PureEval:
+    """Evaluates check_valid, as read by PureFn (which must have accepted it), on one string, by walking the
+    ast - nothing of the source is executed.  Used to derive the data constants `check_valid_rejected` /
+    `check_valid_rejects_empty` when the older shape matcher of harness/consts/trainer_io.py does not know
+    the way the tests are written; ReaderGenProofs.py_check_valid_is_model proves, for every password, that
+    the translated function is the model's check_valid on exactly these constants, so a wrong derivation
+    cannot go unnoticed."""
+
+    class _Ret(Exception):
+        def __init__(self, v):
+            self.v = v
+
+    def __init__(self, fn):
+        self.fn = fn
+        self.pw = fn.args.args[0].arg
+
+    def chars(self):
+        """every code point the function mentions (a superset of those its tests mention: the characters of
+        the docstring are harmless extra candidates)"""
+        out = set()
+        for n in ast.walk(self.fn):
+            if isinstance(n, ast.Constant) and isinstance(n.value, str):
+                out.update(ord(c) for c in n.value)
+            if isinstance(n, ast.Call) and isinstance(n.func, ast.Name) and n.func.id == "range" \
+                    and all(isinstance(a, ast.Constant) and type(a.value) is int for a in n.args):
+                out.update(range(*[a.value for a in n.args]))
+        return sorted(c for c in out if 0 <= c < 0x110000), None
+
+    def call(self, w):
+        env = {self.pw: w}
+        try:
+            self.block(self.fn.body, env)
+        except PureEval._Ret as r:
+            return r.v
+        raise TranslateError("check_valid: no return")
+
+    def block(self, stmts, env):
+        for s in stmts:
+            if PureFn.is_docstring(s) or isinstance(s, ast.Pass):
+                continue
+            if isinstance(s, ast.Return):
+                raise PureEval._Ret(s.value.value)
+            if isinstance(s, ast.If):
+                self.block(s.body if self.cond(s.test, env) else s.orelse, env)
+            elif isinstance(s, ast.For):
+                for v in self.seq(s.iter):
+                    env[s.target.id] = v
+                    self.block(s.body, env)
+                env.pop(s.target.id, None)
+            else:
+                raise TranslateError("check_valid: statement not evaluated")
+
+    def seq(self, it):
+        if isinstance(it, ast.Call):
+            return list(range(*[a.value for a in it.args]))
+        if isinstance(it, ast.Constant):
+            return list(it.value)
+        return [e.value for e in it.elts]
+
+    def val(self, e, env):
+        if isinstance(e, ast.Name):
+            return env[e.id]
+        if isinstance(e, ast.Constant):
+            return e.value
+        if isinstance(e, ast.Call) and e.func.id == "chr":
+            return chr(self.val(e.args[0], env))
+        if isinstance(e, ast.Call) and e.func.id == "len":
+            return len(self.val(e.args[0], env))
+        raise TranslateError("check_valid: expression not evaluated")
+
+    def cond(self, e, env):
+        if isinstance(e, ast.Call) and isinstance(e.func, ast.Name) and e.func.id in ("any", "all"):
+            g = e.args[0]
+            res = []
+            for v in self.seq(g.generators[0].iter):
+                env2 = dict(env)
+                env2[g.generators[0].target.id] = v
+                res.append(self.cond(g.elt, env2))
+            return any(res) if e.func.id == "any" else all(res)
+        if isinstance(e, ast.UnaryOp):
+            return not self.cond(e.operand, env)
+        if isinstance(e, ast.BoolOp):
+            vals = [self.cond(v, env) for v in e.values]
+            return all(vals) if isinstance(e.op, ast.And) else any(vals)
+        if isinstance(e, ast.Name):
+            return bool(env[e.id])
+        if isinstance(e, ast.Compare):
+            a, b = self.val(e.left, env), self.val(e.comparators[0], env)
+            op = type(e.ops[0])
+            return {ast.In: lambda: a in b, ast.NotIn: lambda: a not in b, ast.Eq: lambda: a == b, ast.NotEq: lambda: a != b,
+                    ast.Lt: lambda: a < b, ast.LtE: lambda: a <= b, ast.Gt: lambda: a > b, ast.GtE: lambda: a >= b}[op]()
+        raise TranslateError("check_valid: condition not evaluated")
+
+
+def check_valid_constants(repo=None):
+    """-> (sorted code points check_valid rejects, rejects the empty password), derived from the ast of
+    check_valid in the subset PureFn accepts (raises TranslateError outside it)"""
+    repo = repo or common.REPO
+    path = os.path.join(repo, SOURCE)
+    with open(path, encoding="utf-8", newline="") as f:
+        tree = ast.parse(f.read(), filename=path)
+    funcs = [n for n in tree.body if isinstance(n, ast.FunctionDef) and n.name == "check_valid"]
+    if len(funcs) != 1:
+        raise TranslateError("%s: check_valid not found exactly once at module level" % path)
+    PureFn(path, funcs[0], "").translate()          # refuses anything outside the subset
+    ev = PureEval(funcs[0])
+    cands, _ = ev.chars()
+    rejected = [c for c in cands if ev.call(chr(c)) is False]
+    return rejected, ev.call("") is False
 
 
 # ---------------------------------------------------------------------- __init__
@@ -444,7 +586,7 @@ class GenFn(Base):
         out += "Definition py_read_password (E : pyenv) (fuel : nat) : M unit :=\n"
         out += self.line(1, "(* locals not yet assigned (never read: checked by the translator) *)")
         for n in self.frame:
-            out += self.line(1, "let %s := %s in" % (n, DEFAULT[self.types[n]]))
+            out += self.line(1, "let %s := %s in" % (vname(n), DEFAULT[self.types[n]]))
         out += self.line(1, "r0 <- (")
         out += _close(body, ") ;;")
         out += self.line(1, "fn_end r0.")
@@ -515,10 +657,11 @@ class GenFn(Base):
 
     # ------------------------------------------------------------------ frame text
     def ftuple(self):
-        return "(" + ", ".join(self.frame) + ")" if len(self.frame) > 1 else self.frame[0]
+        names = [vname(n) for n in self.frame]
+        return "(" + ", ".join(names) + ")" if len(names) > 1 else names[0]
 
     def fbinder(self):
-        return "'" + self.ftuple() if len(self.frame) > 1 else self.frame[0]
+        return "'" + self.ftuple() if len(self.frame) > 1 else vname(self.frame[0])
 
     # ------------------------------------------------------------------ statements
     def trivial(self, s):
@@ -644,7 +787,7 @@ class GenFn(Base):
             self.settype(s, v, INT)
             item = self.gensym("it")
             out += self.line(ind, "rfor (zrange %s %s) (fun %s %s =>" % (_paren(lo), _paren(hi), item, self.fbinder()), s)
-            out += self.line(ind + 1, "let %s := %s in" % (v, item))
+            out += self.line(ind + 1, "let %s := %s in" % (vname(v), item))
             env2 = env.copy()
             env2.assigned.add(v)
             self.in_loop += 1
@@ -710,7 +853,7 @@ class GenFn(Base):
                 out = self.flush(ind)
                 out = self.mark(out, s) if out else out
                 env.assigned.add(t.id)
-                return out + self.line(ind, "let %s := %s in" % (t.id, v), None if out else s)
+                return out + self.line(ind, "let %s := %s in" % (vname(t.id), v), None if out else s)
             a = self.selfattr(t)
             if a:
                 if a == "file":
@@ -747,7 +890,7 @@ class GenFn(Base):
                 self.settype(s, t.id, nty)
                 out = self.flush(ind)
                 out = self.mark(out, s) if out else out
-                return out + self.line(ind, "let %s := %s in" % (t.id, new), None if out else s)
+                return out + self.line(ind, "let %s := %s in" % (vname(t.id), new), None if out else s)
             a = self.selfattr(t)
             if a and a != "file":
                 cur = self.gensym("tmp")
@@ -861,7 +1004,7 @@ class GenFn(Base):
             if e.id in self.frame:
                 if e.id not in env.assigned:
                     self.fail(e, "%r may be read before it is assigned" % e.id)
-                return e.id, self.types[e.id]
+                return vname(e.id), self.types[e.id]
             self.fail(e, "unknown name %r" % e.id)
         if isinstance(e, ast.Constant):
             if type(e.value) is bool:
